@@ -129,9 +129,8 @@ pub(crate) fn stmt(p: &mut Parser<'_>) {
             // in `EXPR_STMT`, so we create new marker at the beginning of this `EXPR`.
             // Then we parse just a semicolon.
             let m = cm.precede(p);
-            if blocklike.is_block() {
-                let _ = p.eat(T![;]);
-            } else if !p.eat(T![;]) {
+            // A block needs no terminator; a following `;` is an empty statement of its own.
+            if !blocklike.is_block() && !p.eat(T![;]) {
                 p.error("Expecting semicolon terminating statement");
             }
             m.complete(p, EXPR_STMT);
